@@ -171,6 +171,15 @@ def c04(res, c):
     if set(ea) & set(eb):
         sk.violation(res, f"{name}: two setups of the same (key, database) share ciphertext entries",
                      f"{name} ({c['profile']}): {len(set(ea) & set(eb))} shared entries", sk.show_case(c))
+    # a second scheme OBJECT in the same process (what every front-end command creates), same key, same database
+    try:
+        scheme2 = ld.SSEScheme(copy.deepcopy(c["cfg"]))
+        ec = entries(scheme2.EDBSetup(key, c["db"]))
+    except Exception:
+        ec = []
+    if (set(ea) | set(eb)) & set(ec):
+        sk.violation(res, f"{name}: a second scheme object encrypting the same (key, database) reproduces ciphertext entries",
+                     f"{name} ({c['profile']}): {len((set(ea) | set(eb)) & set(ec))} entries shared with an index built by another scheme object", sk.show_case(c))
     res.count("ciphertext entries compared", len(ea))
 
 
